@@ -413,7 +413,7 @@ def S6(inp):
     return Res(cl, nontrivial=name != 'running', obs=lambda: dict(wait=name, log=[e[1] for e in log], pid=ser._Serializer__pid))
 
 
-@obligation('RI', props=('C01', 'C09', 'C04'), quick=[dict(n=2), dict(n=3)], thorough=[dict(n=2), dict(n=3), dict(n=4), dict(n=5)], stubs=_STUBS,
+@obligation('RI', props=('C01', 'C09', 'C04', 'C02'), quick=[dict(n=2), dict(n=3)], thorough=[dict(n=2), dict(n=3), dict(n=4), dict(n=5)], stubs=_STUBS,
             bounds='follower in any well-formed state with n<=4 entries; the last chunk of a snapshot taken at any index d >= the follower commit index (terms symbolic), leader commit any value >= d; earlier chunks present or missing')
 def RI(inp, n):
     """snapshot installation on a follower: only a complete transfer is installed; then the log is exactly the two snapshot
